@@ -513,3 +513,132 @@ Proof. reflexivity. Qed.
 Lemma tilde_ci_pinned_wrong :
   tilde_ci_pinned frag_go_match [65] [92; 83] <> frag_go_match (flag_i ++ [92; 83]) [65].
 Proof. vm_compute. discriminate. Qed.
+
+(* =========================== UTF-8 codec =========================== *)
+Lemma in_range_true : forall a b x, in_range a b x = true -> a <= x <= b.
+Proof. intros a b x H. unfold in_range in H. apply andb_true_iff in H. destruct H as [H1 H2]. apply Z.leb_le in H1, H2. lia. Qed.
+Lemma in_range_intro : forall a b x, a <= x <= b -> in_range a b x = true.
+Proof. intros a b x [H1 H2]. unfold in_range. apply andb_true_iff. split; apply Z.leb_le; assumption. Qed.
+Lemma in_range_false : forall a b x, x < a \/ b < x -> in_range a b x = false.
+Proof. intros a b x H. unfold in_range. apply andb_false_iff. destruct H; [left|right]; apply Z.leb_gt; assumption. Qed.
+
+Ltac ir :=
+  repeat match goal with
+  | |- context [in_range ?a ?b ?x] =>
+      first [ rewrite (in_range_intro a b x) by lia | rewrite (in_range_false a b x) by lia ]
+  end.
+
+Lemma decode_rune_encode : forall r rest, valid_rune r = true ->
+  decode_rune (encode_rune r ++ rest) = (r, length (encode_rune r)).
+Proof.
+  intros r rest Hv. unfold valid_rune in Hv.
+  assert (Hc : 0 <= r <= 127 \/ 128 <= r <= 2047 \/ (2048 <= r <= 55295 \/ 57344 <= r <= 65535) \/ 65536 <= r <= 1114111).
+  { apply orb_true_iff in Hv. destruct Hv as [H|H]; apply in_range_true in H; lia. }
+  clear Hv. unfold encode_rune.
+  replace (r / 262144) with (r / 64 / 64 / 64) by (rewrite !Z.div_div by lia; reflexivity).
+  replace (r / 4096) with (r / 64 / 64) by (rewrite !Z.div_div by lia; reflexivity).
+  pose proof (Z.div_mod r 64 ltac:(lia)) as D1. pose proof (Z.mod_pos_bound r 64 ltac:(lia)) as B1.
+  remember (r / 64) as q1. remember (r mod 64) as m1. clear Heqm1.
+  pose proof (Z.div_mod q1 64 ltac:(lia)) as D2. pose proof (Z.mod_pos_bound q1 64 ltac:(lia)) as B2.
+  remember (q1 / 64) as q2. remember (q1 mod 64) as m2. clear Heqm2.
+  pose proof (Z.div_mod q2 64 ltac:(lia)) as D3. pose proof (Z.mod_pos_bound q2 64 ltac:(lia)) as B3.
+  remember (q2 / 64) as q3. remember (q2 mod 64) as m3. clear Heqm3 Heqq3 Heqq2 Heqq1.
+  destruct Hc as [H|[H|[H|H]]].
+  - ir. cbn [app length]. unfold decode_rune. ir. reflexivity.
+  - ir. cbn [app length]. unfold decode_rune, is_cont. cbv beta iota zeta. ir. cbv iota. f_equal. lia.
+  - destruct H as [H|H]; ir; cbn [orb]; cbv iota; cbn [app length]; unfold decode_rune, is_cont; cbv beta iota zeta; ir; cbv iota;
+    destruct (Z.eqb_spec (224 + q2) 224); destruct (Z.eqb_spec (224 + q2) 237); cbv iota; ir; cbn [andb]; cbv iota; f_equal; lia.
+  - ir. cbn [orb]. cbv iota. cbn [app length]. unfold decode_rune, is_cont. cbv beta iota zeta. ir. cbv iota.
+    destruct (Z.eqb_spec (240 + q3) 240); destruct (Z.eqb_spec (240 + q3) 244); cbv iota; ir; cbn [andb]; cbv iota; f_equal; lia.
+Qed.
+
+Lemma encode_rune_nonempty : forall r, encode_rune r <> [].
+Proof. intros r. unfold encode_rune. repeat match goal with |- context [if ?c then _ else _] => destruct c end; discriminate. Qed.
+
+Lemma range_from_skip : forall l1 l2 off,
+  range_from (length l1) off (l1 ++ l2) = range_from 0 (off + length l1) l2.
+Proof.
+  induction l1 as [|a l1 IH]; intros l2 off; simpl.
+  - rewrite Nat.add_0_r. reflexivity.
+  - rewrite IH. rewrite Nat.add_succ_r. reflexivity.
+Qed.
+
+Definition rune_of (x : nat * Z * nat) : Z := snd (fst x).
+
+Lemma range_encode_rune : forall r rest off, valid_rune r = true ->
+  range_from 0 off (encode_rune r ++ rest) =
+  (off, r, length (encode_rune r)) :: range_from 0 (off + length (encode_rune r)) rest.
+Proof.
+  intros r rest off Hv. pose proof (decode_rune_encode r rest Hv) as Hd.
+  destruct (encode_rune r) as [|b0 t] eqn:E; [exfalso; exact (encode_rune_nonempty r E)|].
+  change ((b0 :: t) ++ rest) with (b0 :: (t ++ rest)) in *.
+  cbn [range_from]. rewrite Hd. cbn [length Nat.pred]. rewrite range_from_skip.
+  rewrite Nat.add_succ_r. reflexivity.
+Qed.
+
+Lemma decode_encode_from : forall rs off, forallb valid_rune rs = true ->
+  map (fun x => snd (fst x)) (range_from 0 off (encode rs)) = rs.
+Proof.
+  induction rs as [|r rs IH]; intros off H; [reflexivity|].
+  simpl in H. apply andb_true_iff in H. destruct H as [Hr Hrs].
+  unfold encode. cbn [flat_map]. fold (encode rs).
+  rewrite range_encode_rune by exact Hr. cbn [map fst snd]. rewrite IH by exact Hrs. reflexivity.
+Qed.
+
+Theorem decode_encode : forall rs, forallb valid_rune rs = true -> decode (encode rs) = rs.
+Proof. intros rs H. unfold decode, range_str. apply decode_encode_from. exact H. Qed.
+
+(* every rune the decoder yields is a Unicode scalar value (U+FFFD for anything malformed) *)
+Lemma valid_rune_intro : forall v, 0 <= v <= 55295 \/ 57344 <= v <= 1114111 -> valid_rune v = true.
+Proof.
+  intros v H. unfold valid_rune. apply orb_true_iff. destruct H; [left|right]; apply in_range_intro; assumption.
+Qed.
+
+Lemma decode_rune_valid : forall s, valid_rune (fst (decode_rune s)) = true.
+Proof.
+  intros s. unfold decode_rune. destruct s as [|b0 t]; [reflexivity|].
+  destruct (in_range 0 127 b0) eqn:E0.
+  { apply in_range_true in E0. apply valid_rune_intro. simpl. lia. }
+  destruct (in_range 194 223 b0) eqn:E1.
+  { apply in_range_true in E1. destruct t as [|b1 t]; [reflexivity|].
+    unfold is_cont. destruct (in_range 128 191 b1) eqn:C1; [|reflexivity].
+    apply in_range_true in C1. apply valid_rune_intro. simpl. lia. }
+  destruct (in_range 224 239 b0) eqn:E2.
+  { apply in_range_true in E2. destruct t as [|b1 [|b2 t]]; try reflexivity.
+    cbv zeta. unfold is_cont.
+    destruct (in_range (if b0 =? 224 then 160 else 128) (if b0 =? 237 then 159 else 191) b1) eqn:C1; [|reflexivity].
+    destruct (in_range 128 191 b2) eqn:C2; [|reflexivity].
+    apply in_range_true in C1, C2. apply valid_rune_intro. cbn [andb fst].
+    destruct (Z.eqb_spec b0 224); destruct (Z.eqb_spec b0 237); lia. }
+  destruct (in_range 240 244 b0) eqn:E3; [|reflexivity].
+  apply in_range_true in E3. destruct t as [|b1 [|b2 [|b3 t]]]; try reflexivity.
+  cbv zeta. unfold is_cont.
+  destruct (in_range (if b0 =? 240 then 144 else 128) (if b0 =? 244 then 143 else 191) b1) eqn:C1; [|reflexivity].
+  destruct (in_range 128 191 b2) eqn:C2; [|reflexivity].
+  destruct (in_range 128 191 b3) eqn:C3; [|reflexivity].
+  apply in_range_true in C1, C2, C3. apply valid_rune_intro. cbn [andb fst].
+  destruct (Z.eqb_spec b0 240); destruct (Z.eqb_spec b0 244); lia.
+Qed.
+
+Lemma range_from_valid : forall s skip off, forallb (fun x => valid_rune (snd (fst x))) (range_from skip off s) = true.
+Proof.
+  induction s as [|b t IH]; intros skip off; [reflexivity|].
+  cbn [range_from]. destruct skip as [|k]; [|apply IH].
+  pose proof (decode_rune_valid (b :: t)) as Hv. destruct (decode_rune (b :: t)) as [r w].
+  cbn [forallb fst snd]. simpl in Hv. rewrite Hv. apply IH.
+Qed.
+
+Lemma decode_valid : forall s, forallb valid_rune (decode s) = true.
+Proof.
+  intros s. unfold decode, range_str. rewrite forallb_forall. intros r Hr.
+  apply in_map_iff in Hr. destruct Hr as [x [<- Hx]].
+  exact (proj1 (forallb_forall _ _) (range_from_valid s 0%nat 0%nat) x Hx).
+Qed.
+
+(* reversing changes the order of the characters and nothing else: decoding the result gives the reversed runes *)
+Theorem reverse_runes : forall s out, reverse_impl s = Ok out -> decode out = rev (decode s).
+Proof.
+  intros s out H. rewrite reverse_impl_is_spec in H. injection H as <-.
+  apply decode_encode. rewrite forallb_forall. intros r Hr. apply in_rev in Hr.
+  exact (proj1 (forallb_forall _ _) (decode_valid s) r Hr).
+Qed.
